@@ -163,6 +163,10 @@ type rvFrame struct {
 	exit     *rvCond
 	label    string
 	errNamed bool
+	// inside `for _, entry := range batch.Entries`: a `return nil` leaves the whole function, so the
+	// entries after this one are not inspected at all; fexit collects the conditions under which that happens
+	inLoop bool
+	fexit  *rvCond
 }
 
 type rvRule struct {
@@ -504,6 +508,11 @@ func (c *rvCtx) call(fr *rvFrame, x *ast.CallExpr) *rvTerm {
 				if a := c.term(fr, x.Args[0]); a.kind == "str" {
 					return &rvTerm{kind: "int", coq: "ICheckDigit (" + a.coq + ")", fields: a.fields}
 				}
+			case fr.recv != "" && id.Name == fr.recv && len(x.Args) == 0 && c.boolMethod(f.Sel.Name) != nil:
+				// func (x *T) isFoo() bool { return EXPR }
+				fd := c.boolMethod(f.Sel.Name)
+				sub := &rvFrame{recv: recvName(fd), locals: map[string]*rvTerm{}, exit: rvFalse}
+				return &rvTerm{kind: "bool", cnd: c.cond(sub, fd.Body.List[0].(*ast.ReturnStmt).Results[0]), fields: c.mentions(fr, x, 0)}
 			case fr.recv != "" && id.Name == fr.recv && len(x.Args) == 0:
 				// accessor x.FooField(): rendered as in the layout table
 				if fd := c.p.method(c.typ, f.Sel.Name); fd != nil && fd.Type.Results != nil && len(fd.Type.Results.List) == 1 {
@@ -518,6 +527,24 @@ func (c *rvCtx) call(fr *rvFrame, x *ast.CallExpr) *rvTerm {
 		}
 	}
 	return c.unknownTerm(fr, x)
+}
+
+// boolMethod: a zero-argument method of the record type of the form `return <bool expression>`.
+func (c *rvCtx) boolMethod(name string) *ast.FuncDecl {
+	fd := c.p.method(c.typ, name)
+	if fd == nil || fd.Body == nil || len(fd.Body.List) != 1 || fd.Type.Results == nil || len(fd.Type.Results.List) != 1 {
+		return nil
+	}
+	if fd.Type.Params != nil && len(fd.Type.Params.List) != 0 {
+		return nil
+	}
+	if id, ok := fd.Type.Results.List[0].Type.(*ast.Ident); !ok || id.Name != "bool" {
+		return nil
+	}
+	if ret, ok := fd.Body.List[0].(*ast.ReturnStmt); !ok || len(ret.Results) != 1 {
+		return nil
+	}
+	return fd
 }
 
 // ---------------------------------------------------------------- statements
@@ -691,6 +718,9 @@ func (c *rvCtx) unknownStmt(fr *rvFrame, st ast.Stmt, guard *rvCond) {
 		c.reject(fr, rvAnd(guard, u))
 	}
 	if isNil {
+		if fr.inLoop {
+			fr.fexit = rvOr(fr.fexit, rvAnd(guard, u))
+		}
 		fr.exit = rvOr(fr.exit, rvAnd(guard, u))
 	}
 }
@@ -711,6 +741,13 @@ func (c *rvCtx) walk(fr *rvFrame, stmts []ast.Stmt, guard *rvCond) {
 		case *ast.RangeStmt:
 			c.rangeStmt(fr, x, guard)
 		case *ast.ExprStmt, *ast.EmptyStmt:
+		case *ast.BranchStmt:
+			if x.Tok == token.CONTINUE && fr.inLoop && x.Label == nil {
+				fr.exit = rvOr(fr.exit, guard) // next entry
+			} else {
+				c.unknownStmt(fr, st, guard)
+				fr.exit = rvOr(fr.exit, rvAnd(guard, rvUnknown(c.text(st), nil)))
+			}
 		case *ast.DeclStmt:
 			if gd, ok := x.Decl.(*ast.GenDecl); ok {
 				for _, s := range gd.Specs {
@@ -734,6 +771,9 @@ func (c *rvCtx) returnStmt(fr *rvFrame, x *ast.ReturnStmt, guard *rvCond) {
 	}
 	res := x.Results[0]
 	if isNilIdent(res) {
+		if fr.inLoop {
+			fr.fexit = rvOr(fr.fexit, rvAnd(guard, rvNot(fr.exit)))
+		}
 		fr.exit = rvOr(fr.exit, guard)
 		return
 	}
@@ -1036,14 +1076,15 @@ func (c *rvCtx) recordRules(typ string) []rvRule {
 	return c.rules
 }
 
-func (c *rvCtx) entryLoopRules(batchTyp, fn, entryTyp string) []rvRule {
+func (c *rvCtx) entryLoopRules(batchTyp, fn, entryTyp string) ([]rvRule, *rvCond) {
 	c.typ = entryTyp
 	c.ftypes = structFields(c.p, entryTyp)
 	c.rules = nil
 	fd := c.p.method(batchTyp, fn)
 	if fd == nil || fd.Body == nil {
-		return []rvRule{{batchTyp + "." + fn + "#0", rvUnknown("function not found", nil)}}
+		return []rvRule{{batchTyp + "." + fn + "#0", rvUnknown("function not found", nil)}}, rvUnknown("function not found", nil)
 	}
+	fexit := rvFalse
 	for _, st := range fd.Body.List {
 		rs, ok := st.(*ast.RangeStmt)
 		if !ok {
@@ -1053,13 +1094,14 @@ func (c *rvCtx) entryLoopRules(batchTyp, fn, entryTyp string) []rvRule {
 		if !ok || !strings.HasSuffix(c.text(rs.X), ".Entries") {
 			continue
 		}
-		fr := &rvFrame{recv: v.Name, locals: map[string]*rvTerm{}, exit: rvFalse, label: batchTyp + "." + fn}
+		fr := &rvFrame{recv: v.Name, locals: map[string]*rvTerm{}, exit: rvFalse, label: batchTyp + "." + fn, inLoop: true, fexit: rvFalse}
 		c.walk(fr, rs.Body.List, rvTrue)
+		fexit = rvOr(fexit, fr.fexit)
 	}
 	if len(c.rules) == 0 {
-		return []rvRule{{batchTyp + "." + fn + "#0", rvUnknown("no loop over the entries", nil)}}
+		return []rvRule{{batchTyp + "." + fn + "#0", rvUnknown("no loop over the entries", nil)}}, fexit
 	}
-	return c.rules
+	return c.rules, fexit
 }
 
 func rvRulesCoq(rules []rvRule) string {
@@ -1114,11 +1156,12 @@ func emitRecValid(repo string) (string, error) {
 		all = append(all, fmt.Sprintf("(%s, V_%s)", coqString(n), n))
 	}
 	fmt.Fprintf(&b, "Definition all_rules : list (string * list (string * cond)) :=\n  [ %s ].\n\n", strings.Join(all, "\n  ; "))
-	std := c.entryLoopRules("Batch", "isAddendaSequence", "EntryDetail")
-	fmt.Fprintf(&b, "(* conditions Batch.isAddendaSequence imposes on every entry of a batch; \"#F\" = the optional sub-record F is present *)\nDefinition B_EntryDetail : list (string * cond) :=\n  %s.\n\n", rvRulesCoq(std))
-	iat := c.entryLoopRules("IATBatch", "isAddendaSequence", "IATEntryDetail")
+	std, stdExit := c.entryLoopRules("Batch", "isAddendaSequence", "EntryDetail")
+	fmt.Fprintf(&b, "(* conditions Batch.isAddendaSequence imposes on the entries of a batch, in entry order; \"#F\" = the optional sub-record F is present *)\nDefinition B_EntryDetail : list (string * cond) :=\n  %s.\n\n", rvRulesCoq(std))
+	iat, iatExit := c.entryLoopRules("IATBatch", "isAddendaSequence", "IATEntryDetail")
 	fmt.Fprintf(&b, "Definition B_IATEntryDetail : list (string * cond) :=\n  %s.\n\n", rvRulesCoq(iat))
 	b.WriteString("Definition batch_entry_rules : list (string * list (string * cond)) :=\n  [ (\"EntryDetail\", B_EntryDetail); (\"IATEntryDetail\", B_IATEntryDetail) ].\n\n")
+	fmt.Fprintf(&b, "(* the loop `for _, entry := range batch.Entries` leaves the FUNCTION with `return nil` on an entry satisfying this\n   condition: the entries after it are not inspected *)\nDefinition batch_loop_exits : list (string * cond) :=\n  [ (\"EntryDetail\", %s); (\"IATEntryDetail\", %s) ].\n\n", stdExit.String(), iatExit.String())
 	// the optional sub-records an entry can carry (pointer or slice fields named Addenda…)
 	var subs []string
 	for _, et := range []string{"EntryDetail", "IATEntryDetail"} {
